@@ -3,6 +3,7 @@ C14 — WebSocket messages arrive intact and in order under every configuration:
 (Model: C14/Model.lean; what a "script" is: C14/Spec.lean; proofs: C14/Lemmas.lean, C14/Intact.lean.)
 -/
 import TornadoModel.C14.Intact
+import TornadoModel.C14.Segment
 namespace TornadoModel.C14
 open Spec
 
@@ -131,5 +132,45 @@ example : messagesOf (runFrames toyCfg init (scriptFrames exScript)).2 = [(true,
 /-- a wf frame at each length-form boundary exists (here: 126 bytes in the 16-bit form, masked) -/
 example : (⟨true, 4, 2, 1, some ⟨1, 2, 3, 4⟩, List.replicate 126 7⟩ : Frame).wf := by
   simp [Frame.wf, extOk]
+
+/-- TCP SEGMENTATION INDEPENDENCE of `_receive_frame_loop`: however the byte stream is cut into segments
+(`runSegs`: the loop runs on what has arrived, the bytes of an incomplete frame stay pending until the next
+segment — cuts inside the 2-byte header, the extended length, the mask or the payload included), the final
+receive state and the events (messages, pings, close, abort) are those of the loop run once on the whole
+stream, and — unless the connection was aborted, when the stream is closed and the rest is gone — so are the
+bytes left unread. -/
+theorem segmentation_independent (cfg : Cfg) (st : State) (segs : List Bytes) (fuel : Nat)
+    (hfuel : segs.flatten.length < fuel) :
+    (runSegs cfg st [] segs).1 = (runBytes cfg fuel st segs.flatten).1
+    ∧ (runSegs cfg st [] segs).2.1 = (runBytes cfg fuel st segs.flatten).2.1
+    ∧ ((runSegs cfg st [] segs).1.status ≠ .aborted →
+        (runSegs cfg st [] segs).2.2 = (runBytes cfg fuel st segs.flatten).2.2) := by
+  have h := runSegs_runB cfg segs st [] (runB_more cfg st [] rfl)
+  rw [List.nil_append, ← runBytes_eq_runB cfg fuel st _ hfuel] at h
+  simp only [normRest, Prod.mk.injEq] at h
+  obtain ⟨h1, h2, h3⟩ := h
+  refine ⟨h1, h2, fun hna => ?_⟩
+  have e1 : ((runSegs cfg st [] segs).1.status == Status.aborted) = false := by
+    cases hs : (runSegs cfg st [] segs).1.status <;> first | rfl | exact absurd hs hna
+  have e2 : ((runBytes cfg fuel st segs.flatten).1.status == Status.aborted) = false := by rw [← h1]; exact e1
+  simpa [e1, e2] using h3
+
+/-- two segmentations of the same byte stream are indistinguishable to the application -/
+theorem segmentations_agree (cfg : Cfg) (st : State) (segs1 segs2 : List Bytes) (h : segs1.flatten = segs2.flatten) :
+    (runSegs cfg st [] segs1).1 = (runSegs cfg st [] segs2).1
+    ∧ (runSegs cfg st [] segs1).2.1 = (runSegs cfg st [] segs2).2.1 := by
+  obtain ⟨a1, a2, _⟩ := segmentation_independent cfg st segs1 _ (Nat.lt_succ_self _)
+  obtain ⟨b1, b2, _⟩ := segmentation_independent cfg st segs2 _ (Nat.lt_succ_self _)
+  rw [a1, a2, b1, b2, h]
+  exact ⟨rfl, rfl⟩
+
+/-- a masked 300-byte-form text frame "hi" + a ping, cut inside the header, the extended length, the mask and
+the payload: same message and ping as in one piece -/
+example :
+    let wire := encodeFrame ⟨true, 0, 1, 1, some ⟨1, 2, 3, 4⟩, [104, 105]⟩ ++ encodeFrame ⟨true, 0, 9, 0, none, [7]⟩
+    (runSegs toyCfg init [] [wire.take 1, (wire.drop 1).take 2, (wire.drop 3).take 3, (wire.drop 6).take 3, wire.drop 9]).2.1
+      = [.message true [104, 105], .ping [7]]
+    ∧ (runBytes toyCfg 100 init wire).2.1 = [.message true [104, 105], .ping [7]] := by
+  decide
 
 end TornadoModel.C14
